@@ -339,6 +339,10 @@ def check(model, rep):
            qualname='SP', line=0)
     rep.floor('R10.5', 'methods on a syntactic call cycle', len(cyclic), 5)
 
+    from .common_ops import shared_field_objects
+    rep.rule('R10.9', 'no mutable object (array, pose, list) is bound to two fields of the platform in one method without a copy')
+    n9 = shared_field_objects(rep, 'R10.9', sp, what='the platform\'s state')
+    rep.floor('R10.9', 'field stores of SP examined', n9, 40)
     # ---------------------------------------------------------------- R10.8
     # every method that changes plate poses or plate-fixed joints relies on _IKHelper to re-derive joints and leg lengths; it must do so on
     # every call - a remembered solve keyed on the plate poses alone goes stale when the plate-fixed joints are replaced (re-spin)
